@@ -40,7 +40,7 @@ TReset == /\ Ev("reset") /\ Rec[l].kind \in {"writer", "fault"}
 CompleteFiles(e, W, t) ==
     LET r == StrictShp(e.shp)
         x == StrictShx(e.shx, e.shp)
-    IN  /\ (On("C09") \/ On("C10") \/ On("C12")) =>
+    IN  /\ (On("C09") \/ On("C10") \/ On("C12") \/ On("C02")) =>
              /\ r.ok /\ r.t = t /\ Len(r.shapes) = Len(W)
              /\ \A i \in 1..Len(W) : SameGeometry(W[i], r.shapes[i], Exact)
              /\ e.flushedShp /\ (hasShx => e.flushedShx)
